@@ -54,10 +54,16 @@ def make_traj(Rs, ps, stamps=None, mode="se3", meta=None):
     elif mode == "arr":
         # the pose matrices as one (n, 4, 4) array instead of a list
         kw["poses_se3"] = np.array([geom.pose(R, p) for R, p in zip(Rs, ps)])
-    elif mode == "quat":
+    elif mode in ("quat", "quatF"):
         kw["positions_xyz"] = np.array([np.asarray(p, dtype=float) for p in ps])
         kw["orientations_quat_wxyz"] = np.array(
             [geom.rot_to_quat_wxyz(R) for R in Rs])
+        if mode == "quatF":
+            # column-major memory layout (np.vstack((x, y, z)).T, arrays
+            # from a DataFrame): the transposed view is then C-contiguous
+            kw["positions_xyz"] = np.asfortranarray(kw["positions_xyz"])
+            kw["orientations_quat_wxyz"] = np.asfortranarray(
+                kw["orientations_quat_wxyz"])
     else:
         raise ValueError(mode)
     if meta is not None:
